@@ -40,7 +40,7 @@ const c06P = "C06"
 
 // c06PairMax: family A streams up to this length (and above the all-chunkings
 // bound) also get every pair of cuts in the thorough tier.
-var c06PairMax = 22
+var c06PairMax = 18
 
 // c06DryRun (env C06_DRY=1) only counts the runs of the enumeration; sizing aid.
 var c06DryRun = os.Getenv("C06_DRY") != ""
@@ -974,7 +974,7 @@ func TestVerif_C06_Framing(t *testing.T) {
 	const P = c06P
 	r := vk.Start(t, "c06_framing", "exploration", P)
 	defer r.Finish()
-	r.Rule(P, "A: message lists (<=2 quick / <=3 thorough; every message but the last deliverable) over flag in {0,1,2,0xFF} x declared length in {0,1,2,lim,lim+1,2^32-1} x actual payload in {declared, declared-1, 0} x 3-4 payload fillings (incl. nibble-compressed payloads inflating to lim, lim+1, 14x) plus truncated length prefixes; limits {0,1,4,5,MaxInt}; 10 decompressor configurations x client/server; EVERY chunking (2^(n-1)) of streams of <= nAll bytes, uniform/single-cut(/pair-cut) chunkings of longer ones. B: real gzip payloads (stdlib, real compress() v1/legacy, 2-member, truncated, bad CRC) with plaintext sizes {0,1,lim-1..lim+2,8lim,65536}, limits {32,48,1024,MaxInt}, 4 gzip configurations, reduced chunkings, both buffer kinds. C: prepareMsg output for sizes {0,1,5,16383,16384,16385} x 5 send compressors fed back through the receive half. A run (stream,limit,config,chunking) is non-trivial if the stream is cut into >=2 chunks or must end in an error; all enumerated runs are distinct")
+	r.Rule(P, "A: message lists (<=2 quick / <=3 thorough; every message but the last deliverable) over flag in {0,1,2,0xFF} x declared length in {0,1,2,lim,lim+1,2^32-1} x actual payload in {declared, declared-1, 0}, messages that could be delivered in 3-4 payload contents (distinct bytes / zeros / 0xFF; nibble-compressed payloads inflating to exactly lim, lim+1, 14x, or invalid), plus truncated length prefixes and both end-of-stream styles of the reader for truncated payloads; limits {0,1,4,5,MaxInt}; 10 decompressor configurations; client side, and server side for 3 (quick) / all (thorough) configurations; EVERY chunking (2^(n-1)) of streams of <= 11 (quick) / 14 (thorough) bytes; longer streams: unsplit, uniform chunks of 1,2,3,5,7,16 bytes, every single cut, and (thorough, streams <= 18 bytes) every pair of cuts. B: real gzip payloads (stdlib-made, real compress() v1/legacy, 2-member, truncated, bad CRC) with plaintext sizes {0,1,lim-1..lim+2,8lim, thorough 65536}, limits {32,48,1024,MaxInt}, 4 gzip configurations x client/server, 1-2 (thorough 3) messages, uniform/single-cut (thorough: pair-cut <= 48 bytes) chunkings, ref-counted and slice buffers. C: prepareMsg output for sizes {0,1,5,16383,16384,16385} x 2 contents x 5 send compressors x 1/3-part marshalling, singly and in pairs, fed back through the receive half at limits {size-1,size,MaxInt, thorough 4MiB} in frame-size/5-byte/boundary chunkings. A run (stream,limit,config,side,chunking) is non-trivial if the stream is cut into >=2 chunks or must end in an error; all enumerated runs are distinct")
 	if encoding.GetCompressor("c06-unregistered") != nil || encoding.GetCompressor("gzip") == nil {
 		r.EngineError("compressor registry is not in the expected state")
 		return
